@@ -100,6 +100,9 @@ def _shape(x, opts, ren):
             kids.append(s)
         if is_block and opts.prune_empty and not kids:
             return _DROPPED
+        if not kids and getattr(x, "items", None) is None and isinstance(getattr(x, "string", None), str):
+            # StringBase leaves (Name, ...) keep their text in .string, not in items
+            kids = [_str_leaf(x.string, opts, ren, cname == "Name" or cname.endswith("_Name"))]
         return (cname,) + tuple(kids)
     return _shape_child(x, opts, ren, False)
 
